@@ -405,16 +405,17 @@ def add (c : Conn) (id : String) : Conn × Bool :=
     let c1 := if c.health = .overwhelmed then { c with health := .good } else c
     if c1.conns.contains id then (c1, false) else ({ c1 with conns := c1.conns ++ [id] }, true)
 
-/-- `terminate_connection(connection_id)`: the connection is removed if it exists (health is not touched) -/
-def terminate (c : Conn) (id : String) : Conn × Bool :=
-  if c.conns.contains id then ({ c with conns := c.conns.filter (· ≠ id) }, true) else (c, false)
+/-- `terminate_connection(connection_id, send_disconnect)`: the connection is removed if it exists (health is not touched);
+the return value is True only when a disconnect was also sent (`return True` sits inside `if send_disconnect:`). -/
+def terminate (c : Conn) (id : String) (sendDisconnect : Bool := true) : Conn × Bool :=
+  if c.conns.contains id then ({ c with conns := c.conns.filter (· ≠ id) }, sendDisconnect) else (c, false)
 
-inductive COp | add (id : String) | terminate (id : String)
+inductive COp | add (id : String) | terminate (id : String) (sendDisconnect : Bool)
 deriving DecidableEq, Repr
 
 def step (c : Conn) : COp → Conn × Bool
   | .add id => c.add id
-  | .terminate id => c.terminate id
+  | .terminate id sd => c.terminate id sd
 
 def run (c : Conn) : List COp → Conn
   | [] => c
